@@ -3303,6 +3303,8 @@ class ISLaSolver:
                     self.logger.debug(
                         "Dropping state %s, unsatisfiable SMT formulas", new_state
                     )
+                    # The state is gone; it must not be removed a second time below.
+                    continue
 
                 # Remove states with unsatisfiable existential formulas.
                 existential_formulas = [
